@@ -27,6 +27,15 @@ def global_adapt(F):
 
 def alts(b, v, depth=0):
     """Possible value trees of v when it is a local assigned in several branches."""
+    if v[0] == "field" and str(v[2]).isdigit() and v[1][0] == "local" and depth < 3:
+        # component of a tuple that is built in several branches (`let (a, b) = if c {(x, y)} else {(u, w)}`, or a helper returning a pair)
+        out = []
+        for t_ in alts(b, v[1], depth):
+            if t_[0] == "agg" and str(t_[1]) == "tuple" and int(v[2]) < len(t_[2]):
+                out += alts(b, t_[2][int(v[2])], depth + 1)
+            else:
+                return [v]
+        return out or [v]
     if v[0] == "local" and depth < 3:
         ds = b.defs().get(v[1], [])
         if 1 <= len(ds) <= 4 and all((d[0] == "stmt" and d[3]["k"] == "assign" and not d[3]["pl"]["p"]) or (d[0] == "call" and not d[3]["dest"]["p"]) for d in ds):
@@ -456,7 +465,11 @@ def run(F, R, config=None):
     r5(F, R)
     r6(F, R)
     r7(F, R)
-    R.info("C09", "final window (only the step size adapts, symmetric statistic) is decided by C06-R4 / C07-R4")
+    # "in the final window only the step size adapts": every transformation mutator in adapt() runs under draw < <start of the final window>
+    from . import c06
+    K.borrow_rule(R, lambda sub: c06.r3(F, sub), "C09-R8", "in the final step-size window the transformation is frozen: every transformation mutator called from adapt() "
+                  "executes only where `draw < self.<final window>` holds on every path (C06-R3 analysis, path-sensitive for phase enums)", only_rules={"C06-R3"})
+    R.info("C09", "final window (only the step size adapts, symmetric statistic) is also decided by C06-R4 / C07-R4")
     R.assume("window arithmetic (off-by-one in counts) is a value question and not decided")
 
 
